@@ -24,6 +24,8 @@ for sid in ids:
         print(sid, "DOES-NOT-APPLY")
         continue
     sh(f"git -C /repo apply {d}/patch.diff")
+    evf = f"{V}/evidence/{prop}.json"
+    saved = open(evf).read() if os.path.exists(evf) else None
     try:
         rc, out = sh(f"./check {prop} --tier quick")
     finally:
@@ -34,6 +36,8 @@ for sid in ids:
         ev = json.load(open(f"{V}/evidence/{prop}.json"))
     except Exception:
         pass
+    if saved is not None:
+        open(evf, "w").write(saved)   # the committed evidence stays the one of the unchanged tree
     viol = re.findall(r"VIOLATION property=\S+ replay=(\S+)( no-failing-input-found)?", out)
     sigs = set()
     for path, _ in viol:
